@@ -66,14 +66,14 @@ def monic(expr):
     return out
 
 
-def distribute(expr):
+def distribute(expr, keep_scalar=False):
     """multiply out polynomial factors with exponent +1 (harness-side expansion; sympy's expand would also
-    multiply out squared denominators)"""
+    multiply out squared denominators).  keep_scalar: polynomials in the orbital energies alone stay as they are"""
     out = []
     for coef, objs, contr in expr:
         terms = [(coef, [])]
         for o in objs:
-            if o[0] == "P" and o[2] >= 1:
+            if o[0] == "P" and o[2] >= 1 and not (keep_scalar and is_scalar_obj(o)):
                 for _ in range(o[2]):
                     new = []
                     for c, os in terms:
@@ -190,6 +190,59 @@ class Oblig:
             ctx.violation(f"orbital-energy identity not provable ({label})", dict(replay, lean_obligation=text,
                           no_failing_input=replay.get("numeric") is None))
         return out
+
+
+def factor_brackets(expr, ob, cache, rep=None):
+    """(multiplied-out polynomial in the orbital energies)^-n  ->  product of its linear brackets ^-n.
+    The factorisation is found with sympy (untrusted); every distinct polynomial yields the Lean obligation
+    `const * prod(linear factors) = polynomial` (ring identity over any field of characteristic 0)."""
+    out = []
+    for coef, objs, contr in expr:
+        o2 = []
+        for o in objs:
+            if o[0] == "P" and o[2] < 0 and any(len(ts) > 1 for _, ts in o[1]):
+                key = o[1]
+                if key not in cache:
+                    cache[key] = _factor_poly(o[1], ob, rep)
+                fac = cache[key]
+                if fac is None:
+                    o2.append(o)
+                    continue
+                const, factors = fac
+                coef = coef * Fraction(const) ** o[2]
+                for f, mult in factors:
+                    o2.append(("P", f, o[2] * mult))
+            else:
+                o2.append(o)
+        out.append((coef, tuple(o2), contr))
+    return out
+
+
+def _factor_poly(ps, ob, rep):
+    syms, back = {}, {}
+    for _, ts in ps:
+        for t in ts:
+            if t not in syms:
+                syms[t] = sympy.Symbol(f"y{len(syms)}")
+                back[syms[t]] = t
+    poly = sympy.Add(*[Rational(Fraction(c).numerator, Fraction(c).denominator) * sympy.Mul(*[syms[t] for t in ts]) for c, ts in ps])
+    const, facs = sympy.factor_list(poly)
+    factors = []
+    for f, mult in facs:
+        p = sympy.Poly(f, *back.keys())
+        if p.total_degree() != 1:
+            return None
+        pts = []
+        for mon, c in p.terms():
+            ts = tuple(back[g] for g, e in zip(p.gens, mon) for _ in range(e))
+            pts.append((Fraction(int(c.p), int(c.q)), ts))
+        pts.sort(key=lambda q: (tuple(t[3] for t in q[1]), q[0]))
+        factors.append((tuple(pts), int(mult)))
+    const = Fraction(int(const.p), int(const.q))
+    lhs = [(const, [("P", f, m) for f, m in factors])]
+    rhs = [(Fraction(1), [("P", ps, 1)])]
+    ob.add("factorisation of a multiplied-out denominator", lhs, rhs, dict(rep or {}, numeric=numeric_scalar_diff(lhs, rhs)))
+    return const, factors
 
 
 def numeric_scalar_diff(lhs, rhs, seed=0):
